@@ -120,6 +120,24 @@ Theorem C13_perm_invariant : forall a apropos fuel, wf_app a -> declared a aprop
         snd r1 = snd r2 /\ (snd r1 = true -> fst r1 = fst r2).
 Proof. exact perm_invariant_loader. Qed.
 
+(* ... and for the value load_from_file's body loop REPORTS (dispatch_printed: the scanned
+   messages with the bytes each took, the sort, the loop): two files holding the same messages
+   in any order return the same number - the number of lines when every line is accepted,
+   -rd_total-1 otherwise - and, when accepted, leave the same state *)
+Theorem C13_perm_invariant_reported : forall a apropos fuel, wf_app a -> declared a apropos ->
+  forall (its1 its2 : list item) ls1 ls2 tot1 tot2 ps1 ps2,
+    scan_items its1 = (ls1, tot1, true) -> scan_items its2 = (ls2, tot2, true) ->
+    rd_nonneg its1 -> Permutation its1 its2 -> NoDup (map l_path ls1) ->
+    pushes line apropos fuel (msgs ls1) = Some ps1 -> pushes line apropos fuel (msgs ls2) = Some ps2 ->
+    ranked ps1 -> ranked ps2 ->
+    forall s0, length s0 = length a ->
+    exists r st1 st2,
+      dispatch_printed apropos fuel a its1 s0 = Some (r, st1) /\
+      dispatch_printed apropos fuel a its2 s0 = Some (r, st2) /\
+      ((0 <= r)%Z -> st1 = st2 /\ r = Z.of_nat (length ls1)) /\
+      ((r < 0)%Z -> r = (- tot1 - 1)%Z).
+Proof. exact perm_invariant_reported. Qed.
+
 (* "a parameter message writes its own port and reads only its declared
    dependencies": lines for different ports neither of which has to precede the
    other (selector / switch) commute, acceptance included *)
